@@ -200,8 +200,18 @@ class SimExecutor:
     def __init__(self, max_workers=None, *a, **kw):
         self.max_workers = max_workers
 
+    @property
+    def _max_workers(self):
+        # pyiga creates its pool ONCE per process, sized by get_max_threads() at the first pooled call.
+        # One simulated run = one process: the pool size is the thread count at the run's first pooled call
+        # (not whatever an earlier run in this worker process happened to use), so a run stays a pure function
+        # of its recorded choices.
+        ctl = SimExecutor.current
+        return ctl.pool_size if ctl is not None and ctl.pool_size else self.max_workers
+
     def map(self, fn, *iterables):
         ctl = SimExecutor.current
+        ctl.note_pool_use()
         tasks = list(zip(*iterables))
         return ctl.run_tasks(fn, tasks)
 
@@ -227,6 +237,12 @@ class Controller:
         self.nontrivial = False
         self.calls = 0
         self.schedule = []
+        self.pool_size = None
+
+    def note_pool_use(self):
+        if self.pool_size is None:
+            import pyiga
+            self.pool_size = pyiga.get_max_threads()
 
     def run_tasks(self, fn, tasks):
         ctx = self.ctx
